@@ -151,7 +151,8 @@ ElemClass(elem) ==
 
 \* tolerances (per unit of magnitude of the compared traces)
 TolGeom   == FxTol(36)
-TolGlobal == FxTol(26)                  \* ElementGlobal families (inverted Vandermonde matrix in global coordinates)
+TolGlobal == FxTol(20)                  \* ElementGlobal families (inverted Vandermonde matrix in global coordinates,
+                                        \* degree up to 5: conditioning grows like |coordinate|^degree)
 TolFor(tolclass) == IF tolclass = "global" THEN TolGlobal ELSE TolGeom
 
 \* facet geometry from integer vertex coordinates: tangent vectors and (unnormalised) normal
